@@ -43,7 +43,8 @@ def term(t):
 CTX = {"jit": "LJit", "scan": "LScan", "while": "LWhile", "fori": "LFori", "cond": "LCond", "nested_jit": "LNestedJit",
        "grad": "LGrad", "value_and_grad": "LValueAndGrad", "vmap": "LVmap", "seed_while": "LSeedWhile",
        "seed_jit": "LSeedJit", "seed_fori": "LSeedFori", "seed_ok": "LSeedOk", "seed_scan_while": "LSeedScanWhile",
-       "jit_det": "LJitDet", "jit_adev": "LJit", "seed_ok_adev": "LSeedOk", "seed_scan_adev": "LSeedOk"}
+       "jit_det": "LJitDet", "seed_remat": "LSeedEagerHO", "seed_custom_jvp": "LSeedEagerHO", "seed_custom_vjp": "LSeedEagerHO",
+       "seed_remat_jit": "LSeedEagerHO", "jit_adev": "LJit", "seed_ok_adev": "LSeedOk", "seed_scan_adev": "LSeedOk"}
 
 
 def scase(c):
@@ -96,8 +97,10 @@ def run(ctx):
                          "rule": "seed: random probabilistic JAX functions (sequences of key-echo sample sites and deterministic ops, lax.cond with straight-line branches, "
                                  "lax.scan of length 0-3 nested to depth 2, cond inside scan) run under seed eagerly, under jit and under jax.vmap over a batch of keys, "
                                  "interleaved with unseeded sampling, unrelated seeded runs and global-counter jumps; every run's per-site raw key data is mapped back to a "
-                                 "term of the key algebra (BFS over real threefry split/fold_in) and must equal the model's term list; non-trivial = distinct program with >=2 site instances. "
-                                 "lower: a site at nesting depth 1-2 placed in jit/scan/while/fori/cond/nested jit/grad/value_and_grad/vmap and seed+while/jit/fori/scan-of-while; "
+                                 "term of the key algebra (BFS over real threefry split/fold_in) and must equal the model's term list; also a persistent sampler object under different keyword parameterisations and parameter shapes, a sampler closing over an array constant, and a vectorised call (modular_vmap with axis_size, site parameters unbatched or mixed, passed positionally or by keyword) "
+                                 "run eagerly, with keyword arguments, from a second identical definition, under jit and vmap over keys, with unseeded and seeded re-vectorisations of the same callee in between "
+                                 "(every lane must report the site key, shape (lanes,2)); non-trivial = distinct program with >=2 site instances. "
+                                 "lower: a site (plain, with its own sample_shape, vectorised by axis_size, vectorised with its parameter passed by keyword) at nesting depth 1-2 placed in jit/scan/while/fori/cond/nested jit/grad/value_and_grad/vmap and seed+while/jit/fori/scan-of-while/checkpoint/custom_jvp/custom_vjp (eager and under jit); "
                                  "outcome class compared with the model (code) and with the property (spec); non-trivial = distinct (context, depth)",
                          "histogram": {"kinds": Counter(c["kind"] for c in cases),
                                        "lower_outcomes": Counter((c.get("ctx"), c.get("raised")) .__str__() for c in cases if c["kind"] == "lower"),
